@@ -140,6 +140,13 @@ def binding_menu(out, expr, layouts, loop_ranks, quick):
         init, final = layouts[(out, t)]
         if init != final and sorted(init) == sorted(final):
             menu.append(("mrg:%s" % t, [{"component": "Mrg", "bindings": [{"tensor": t, "init-ranks": list(init), "final-ranks": list(final)}]}]))
+    # merger whose init-ranks are a user-chosen order of the tensor's in-loop ranks (possibly ranks that only exist
+    # after partitioning): the compiler inserts an extra "metrics" swizzle before the loop-order swizzle
+    for t in tensors[1:]:
+        final = layouts[(out, t)][1]
+        if len(final) >= 2:
+            init = [final[1], final[0]] + list(final[2:])
+            menu.append(("mrgx:%s" % t, [{"component": "Mrg", "bindings": [{"tensor": t, "init-ranks": init, "final-ranks": list(final)}]}]))
     return menu
 
 
@@ -249,6 +256,10 @@ def configs(quick, maxb=None):
             for c in combos:
                 labels = [menu[i][0] for i in c]
                 # two buffer bindings of the same tensor rank are (by the compiler's own rule) multiple bindings
+                if tag == "mm/occ" and any(l.startswith("mrgx") for l in labels) and labels != ["mrgx:A"]:
+                    # a merger whose init-ranks mix ranks across a dynamic partitioning is accepted but emits a dump that reads
+                    # a tensor variable that never exists (known finding F16): one specific instance is kept
+                    continue
                 memkeys = [l.split(":")[1].split("@")[0] for l in labels if l.startswith(("buf:", "cache:"))]
                 if len(memkeys) != len(set(memkeys)):
                     continue
